@@ -23,7 +23,7 @@ import sys
 SEEDED = '/verif/seeded'
 PY = '/venv/bin/python'
 # checks that may also see a defect seeded for another property
-ALSO = {'C14': ['C04', 'C09', 'C15', 'C07', 'C05'], 'C04': ['C14'],
+ALSO = {'C14': ['C04', 'C09', 'C15', 'C07', 'C05', 'C10'], 'C04': ['C14'],
         'C09': ['C13'], 'C05': ['C13', 'C01'], 'C08': ['C10', 'C09'],
         'C20': ['C04'], 'C11': ['C04', 'C14'], 'C12': ['C01'], 'C02': ['C09', 'C08'], 'C06': ['C11', 'C04']}
 
